@@ -122,6 +122,12 @@ fn main() {
                     do_step(&mut w, *s, &Op::Insert(id, t0 + 2 * n as u64 + 1, 0, t0 + 2 * n as u64 + 2, 3, 1), &mut out);
                     do_step(&mut w, *s, &Op::Iter(0, "FBFB".into()), &mut out);
                     do_step(&mut w, *s, &Op::RemoveLru, &mut out);
+                    // force the table to be rebuilt after the panic (twice), then look everything up again
+                    let cap = w.slots[*s].as_ref().map(|c| c.capacity()).unwrap_or(0);
+                    do_step(&mut w, *s, &Op::Reserve(cap + 1), &mut out);
+                    do_step(&mut w, *s, &Op::Get(id), &mut out);
+                    do_step(&mut w, *s, &Op::ShrinkToFit, &mut out);
+                    do_step(&mut w, *s, &Op::Iter(0, "BFBF".into()), &mut out);
                 }
                 finish(&mut w, &mut out, false);
             }
